@@ -249,6 +249,7 @@ func runC01(c *Ctx, phase string) {
 	c.Floor("expected_false", 1000)
 	c.Floor("trees_or_under_and_under_or", 1)
 	c.Floor("long_allowed_lists", 100)
+	c.Floor("collision_pool_trees", 300)
 	c.Floor("big_many_terms", 100)
 	c.Floor("big_long_list", 100)
 	c.Floor("big_expected_true", 50)
@@ -302,6 +303,33 @@ func runC01(c *Ctx, phase string) {
 				}
 			}
 		}
+	}
+	// (iv) terms whose canonical strings are concatenations / prefixes of one another (keys built by joining strings without
+	// a separator, prefix-based lookups): complete truth tables over a fixed pool of such references and ids
+	collide := []gen.Term{{Ref: true, LicRef: "a"}, {Ref: true, LicRef: "b"}, {Ref: true, LicRef: "aLicenseRef-b"}, {Ref: true, LicRef: "ab"},
+		{Ref: true, LicRef: "a", DocRef: "d"}, {Ref: true, LicRef: "LicenseRef-a", DocRef: "d"}, {ID: "MIT"}, {ID: "MIT-0"}, {ID: "MIT", Exc: c.U.Exceptions[0]}}
+	for i := 0; i < c.Pick(600, 6000); i++ {
+		if !c.Mine(i) {
+			continue
+		}
+		r := gen.NewRand(c.Seed, 0xC01C, uint64(i))
+		k := 3 + r.Intn(4)
+		perm := r.Perm(len(collide))
+		terms := make([]gen.Term, k)
+		leaf := make([]string, k)
+		for j := 0; j < k; j++ {
+			terms[j] = collide[perm[j]]
+			leaf[j] = terms[j].Text()
+		}
+		tree := gen.RandomTree(r, r.Intn(gen.NumShapes), k+r.Intn(3), k)
+		if tree.DNFSize() > 256 {
+			continue
+		}
+		paren := r.Intn(3)
+		tc := &TreeCase{Index: i, Source: "collision-pool", Terms: terms, Leaf: ev.QSs(leaf), Tree: tree, Paren: paren,
+			Text: ev.QS(tree.Render(leaf, gen.RenderOpt{Paren: paren, R: r}))}
+		judgeTreeAllSubsets(c, tc, r, 1)
+		c.Inc("collision_pool_trees")
 	}
 	// (iii) large scale: 65..160 distinct terms, or 256..700 allowed entries (leaf truth from the matching model)
 	nBig := c.Pick(600, 6000)
